@@ -437,3 +437,51 @@ def gen_cases(tier):
             out.append(('belsRecover', dict(count=len(dup), len=ln, si=b''.join(sh[j % 3][1:] for j in dup), m0=r['std0'],
                                             mi=b''.join(r['std'][j] for j in dup))))
     return out
+
+def sweep_cases(tier):
+    """C09 argument sweeps: scalars / lengths across and beyond the documented domains of bels.h; every case's reference
+    names the documented error (\\expect{ERR_BAD_INPUT}: len in {16,24,32}, 0 <= num <= 16, 0 < threshold <= count (<= 16);
+    \\expect{ERR_BAD_PUBKEY}: share numbers in 1..16 and distinct, user keys distinct).  Buffers are sized by the same
+    scalars, so under exact-size allocation a function that does not stop at the check writes out of bounds."""
+    out = []
+    f = lambda tag, n: vf.filler('bels.sw/' + tag, n)
+    lens = (0, 1, 8, 15, 16, 17, 23, 24, 25, 31, 32, 33, 40, 48, 64)
+    for ln in lens:
+        for num in (0, 16, 17):
+            out.append(('belsStdM', dict(len=ln, num=num)))
+        out.append(('belsValM', dict(m=f('m', ln))))
+        if ln in LENS:
+            continue                        # admissible lengths are the corpus (need valid keys); here: only beyond the domain
+        out.append(('belsGenM0', dict(len=ln, ang=f('ang', 64))))
+        out.append(('belsGenMi', dict(len=ln, m0=f('m0', ln), ang=f('ang', 64))))
+        out.append(('belsGenMid', dict(len=ln, m0=f('m0', ln), id=f('id', 9))))
+        out.append(('belsShare', dict(count=3, threshold=2, len=ln, s=f('s', ln), m0=f('m0', ln), mi=f('mi', 3 * ln), rng=f('k', ln))))
+        out.append(('belsShare2', dict(count=3, threshold=2, len=ln, s=f('s', ln), rng=f('k', ln))))
+        out.append(('belsShare3', dict(count=3, threshold=2, len=ln, s=f('s', ln))))
+        out.append(('belsRecover', dict(count=2, len=ln, si=f('si', 2 * ln), m0=f('m0', ln), mi=f('mi', 2 * ln))))
+        out.append(('belsRecover2', dict(count=2, len=ln, si=b''.join(bytes([j + 1]) + f('si%d' % j, ln) for j in range(2)))))
+    for ln in LENS:
+        r = ring(ln)
+        s = secret('f', ln)
+        for num in (15, 16, 17, 18, 255, 256, 1 << 16, 1 << 32, vf.SIZE_MAX):
+            out.append(('belsStdM', dict(len=ln, num=num)))
+        for cnt, thr in ((0, 0), (1, 0), (5, 0), (0, 1), (1, 2), (2, 3), (5, 6), (16, 17), (1, 1), (16, 16), (3, 1 << 32), (3, vf.SIZE_MAX)):
+            mi = b''.join(r['std'][:cnt])
+            out.append(('belsShare', dict(count=cnt, threshold=thr, len=ln, s=s, m0=r['std0'], mi=mi, rng=ktape('f', max(thr - 1, 0) * ln if thr <= 16 else 0))))
+            out.append(('belsShare2', dict(count=cnt, threshold=thr, len=ln, s=s, rng=ktape('f', max(thr - 1, 0) * ln if thr <= 16 else 0))))
+            out.append(('belsShare3', dict(count=cnt, threshold=thr, len=ln, s=s)))
+        for cnt, thr in ((17, 1), (17, 17), (18, 2), (32, 16), (255, 3)):
+            out.append(('belsShare2', dict(count=cnt, threshold=thr, len=ln, s=s, rng=ktape('f', (thr - 1) * ln))))
+            out.append(('belsShare3', dict(count=cnt, threshold=thr, len=ln, s=s)))
+        sh = R.share_std(s, 2, 16, R.Tape(ktape('f', ln)))
+        out.append(('belsRecover', dict(count=0, len=ln, si=b'', m0=r['std0'], mi=b'')))
+        for cnt in (0, 1, 16, 17, 18, 40):
+            out.append(('belsRecover2', dict(count=cnt, len=ln, si=b''.join(bytes([j % 16 + 1]) + sh[j % 16][1:] for j in range(cnt)))))
+        for pos in (0, 1, 2):
+            for v in (0, 1, 16, 17, 128, 255):
+                nums = [5, 6, 7]; nums[pos] = v
+                out.append(('belsRecover2', dict(count=3, len=ln, si=b''.join(bytes([n]) + sh[i][1:] for i, n in enumerate(nums)))))
+        for dup in ((0, 0), (1, 0, 1), (0, 1, 2, 3, 4, 0), (3, 3, 3)):
+            out.append(('belsRecover', dict(count=len(dup), len=ln, si=b''.join(sh[j][1:] for j in dup), m0=r['std0'], mi=b''.join(r['std'][j] for j in dup))))
+            out.append(('belsRecover2', dict(count=len(dup), len=ln, si=b''.join(sh[j] for j in dup))))
+    return out
